@@ -22,6 +22,7 @@ import (
 	"github.com/elastos/Elastos.ELA/core/types/interfaces"
 	"github.com/elastos/Elastos.ELA/core/types/payload"
 
+	"verifharness/ctxcheck"
 	"verifharness/elaenv"
 	"verifharness/lib"
 )
@@ -97,6 +98,14 @@ func mixes(al []byte, maxlen int) [][]byte {
 	return res
 }
 
+func ints(b []byte) []int {
+	r := make([]int, len(b))
+	for i, x := range b {
+		r[i] = int(x)
+	}
+	return r
+}
+
 func cps(name string) string {
 	var ss []string
 	for _, r := range []rune(name) {
@@ -129,7 +138,7 @@ func main() {
 			err = transaction.CheckTransactionCrossChainUTXOVerif(tx, refs, h, fh, rh)
 		})
 		in := func() interface{} {
-			return map[string]interface{}{"type": tt, "payloadVersion": pv, "refPrefixes": prefixes, "height": h, "freezeHeight": fh, "restrictionHeight": rh, "accepted": err == nil}
+			return map[string]interface{}{"type": tt, "payloadVersion": pv, "refPrefixes": ints(prefixes), "height": h, "freezeHeight": fh, "restrictionHeight": rh, "accepted": err == nil}
 		}
 		if panicked {
 			st.Fail("c31:panic", fmt.Sprintf("checkTransactionCrossChainUTXO panicked: %v", pval), in())
@@ -144,6 +153,22 @@ func main() {
 			}
 		}
 		return ok
+	}
+
+	// ---------------- wiring of the helper inside ContextCheck (read from the source under test)
+	if m, err := ctxcheck.Load(run.Repo, "ContextCheck"); err != nil {
+		st.Fail("c31:contextcheck-wiring", "cannot analyse DefaultChecker.ContextCheck: "+err.Error(), nil)
+	} else {
+		for _, p := range []string{
+			m.OnlyReceivers("DefaultChecker", "CoinBaseTransaction"),
+			m.Expect("checkTransactionCrossChainUTXO", []string{"t.parameters.Transaction", "references", "t.parameters.BlockHeight",
+				"t.parameters.Config.CrossChainUTXOFreezeHeight", "t.parameters.Config.CrossChainUTXORestrictionHeight"},
+				[]string{"GetTxReference"}, []string{"SpecialContextCheck", "CheckTransactionFee", "checkTransactionSignature"}),
+		} {
+			if p != "" {
+				st.Fail("c31:contextcheck-wiring", "ContextCheck no longer applies the cross-chain UTXO policy to every non-coinbase transaction before the type-specific checks: "+p, nil)
+			}
+		}
 	}
 
 	// ---------------- exhaustive sweeps
@@ -280,7 +305,7 @@ func main() {
 		ok := callCheck(tx, tt, pv, prefixes, mkRefs(prefixes), h, fh, rh)
 		k := next()
 		sh.Add(fmt.Sprintf("CCheck %d %d %d %s %d %d %d %s", k, tt, pv, lib.CoqBytes(prefixes), h, fh, rh, lib.CoqBool(ok)))
-		in := map[string]interface{}{"op": "check", "type": tt, "payloadVersion": pv, "refPrefixes": prefixes, "height": h, "freezeHeight": fh, "restrictionHeight": rh, "accepted": ok}
+		in := map[string]interface{}{"op": "check", "type": tt, "payloadVersion": pv, "refPrefixes": ints(prefixes), "height": h, "freezeHeight": fh, "restrictionHeight": rh, "accepted": ok}
 		st.LogCase(run.Out, k, in)
 		hasCC := false
 		for _, p := range prefixes {
